@@ -86,9 +86,25 @@ fn exprs1(full_if: bool) -> Vec<XE> {
     v
 }
 
+/// `if c { s1; s2; tail } else { literal }` for every pair of depth-0 statements: a nested scope that
+/// binds the name more than once
+fn exprs_two_statement_blocks() -> Vec<XE> {
+    let mut v = Vec::new();
+    let s0 = stmts0();
+    for a in &s0 {
+        for b in &s0 {
+            for t in exprs0() {
+                v.push(XE::If(true, Box::new(XB { stmts: vec![a.clone(), b.clone()], tail: t }), Box::new(XB { stmts: vec![], tail: XE::Lit })));
+            }
+        }
+    }
+    v
+}
+
 /// all bodies of the tier: up to `n` depth-0 statements followed by a depth-1 tail
 fn bodies(tier: Tier) -> Vec<XB> {
-    let tails = exprs1(tier == Tier::Thorough);
+    let mut tails = exprs1(tier == Tier::Thorough);
+    tails.extend(exprs_two_statement_blocks());
     let s0 = stmts0();
     let mut prefixes: Vec<Vec<XS>> = vec![vec![]];
     let maxn = if tier == Tier::Quick { 1 } else { 2 };
@@ -226,7 +242,7 @@ impl Elab {
 }
 
 /// returns (program, α-renamed names, #uses, #unbound uses, #shadowing binders)
-pub fn build(body: &XB, with_param: bool) -> (Program, Vec<String>, u32, u32, u32) {
+pub fn build(body: &XB, with_param: bool, variant_named_x: bool) -> (Program, Vec<String>, u32, u32, u32) {
     let mut el = Elab {
         n: Names::new(),
         unique: Vec::new(),
@@ -249,6 +265,10 @@ pub fn build(body: &XB, with_param: bool) -> (Program, Vec<String>, u32, u32, u3
         variants: vec![("Non".into(), vec![]), ("Som".into(), vec![Ty::i32()])],
         derives: vec![],
     }));
+    if variant_named_x {
+        // an enum of the package with a (lower-case) variant spelled like every binder
+        el.items.push(Item::Enum(EnumDef { name: "Low".into(), generics: vec![], variants: vec![("x".into(), vec![]), ("other".into(), vec![Ty::i32()])], derives: vec![] }));
+    }
     let (param, scope) = if with_param {
         let p = el.binder(&None);
         (p, Some(p))
@@ -285,7 +305,7 @@ impl Family for Scoping {
         &["C05", "C01", "C02", "C04"]
     }
     fn rule(&self) -> &'static str {
-        "binder-shape lattice: every function body made of <= 1 (quick) / <= 2 (thorough) depth-0 statements {let x, let (x,_), show, closure |x|} followed by a depth-1 tail {x, literal, if with one-statement blocks, match binding x, match x => …}, with and without a parameter named x, every binder spelled `x`; non-trivial = programs with a use whose innermost binder is shadowing another binder, or with an unbound use; distinct = distinct source text"
+        "binder-shape lattice: every function body made of <= 1 (quick) / <= 2 (thorough) depth-0 statements {let x, let (x,_), show, closure |x|} followed by a depth-1 tail {x, literal, if with one-statement blocks, if whose then-block has two statements (every pair), match binding x, match x => …}, with and without a parameter named x, every binder spelled `x`; every body whose binders are parameters and closure parameters only and whose uses are all bound also in a package that declares an enum with a variant spelled `x` (a pattern of that spelling is a constructor pattern); non-trivial = programs with a use whose innermost binder is shadowing another binder, or with an unbound use; distinct = distinct source text"
     }
     fn cases(&self, tier: Tier) -> Box<dyn Iterator<Item = Value> + '_> {
         let n = bodies(tier).len();
@@ -307,13 +327,19 @@ impl Family for Scoping {
         let mut count = 0u64;
         let mut reported = std::collections::BTreeMap::<String, u32>::new();
         for (bi, body) in all[lo..hi].iter().enumerate() {
-            for with_param in [true, false] {
+            for (with_param, variant_named_x) in [(true, false), (false, false), (true, true), (false, true)] {
+                let (prog, unique, uses, unbound, shadowing) = build(body, with_param, variant_named_x);
+                // with a variant spelled x in the package, a use without a binder means the variant
+                // (and a pattern spelled like a variant is a constructor pattern: only parameters and closure
+                // parameters can be binders of that name)
+                if variant_named_x && (unbound > 0 || has_two_statement_block(body) || has_pattern_binder(body)) {
+                    continue;
+                }
                 count += 1;
-                let (prog, unique, uses, unbound, shadowing) = build(body, with_param);
                 let text = Printer::new(&prog.names).package(&prog.packages[0]);
                 let text2 = Printer::new(&unique).package(&prog.packages[0]);
-                let site_shape = format!("{}", shape_of(body));
-                let subcase = json!({"index": lo + bi, "with_param": with_param});
+                let site_shape = format!("{}{}", shape_of(body), if variant_named_x { ";variant-named-x" } else { "" });
+                let subcase = json!({"index": lo + bi, "with_param": with_param, "variant_named_x": variant_named_x});
                 if shadowing > 0 && uses > 0 || unbound > 0 {
                     rep.more_keys.push(fnv(&text));
                 }
@@ -453,6 +479,42 @@ impl Family for Scoping {
         rep.outcome = Some(format!("{}", lo));
         rep
     }
+}
+
+fn has_pattern_binder(b: &XB) -> bool {
+    fn e(x: &XE) -> bool {
+        match x {
+            XE::If(_, a, c) => bl(a) || bl(c),
+            XE::MatchOpt(..) | XE::MatchVar(..) => true,
+            _ => false,
+        }
+    }
+    fn bl(b: &XB) -> bool {
+        b.stmts.iter().any(|s| match s {
+            XS::Let(_) | XS::LetTup(_) => true,
+            XS::Show(x) => e(x),
+            XS::Clo(a, c) => e(a) || e(c),
+        }) || e(&b.tail)
+    }
+    bl(b)
+}
+
+fn has_two_statement_block(b: &XB) -> bool {
+    fn e(x: &XE) -> bool {
+        match x {
+            XE::If(_, a, c) => a.stmts.len() > 1 || c.stmts.len() > 1 || bl(a) || bl(c),
+            XE::MatchOpt(s, a, c) => e(s) || e(a) || e(c),
+            XE::MatchVar(s, a) => e(s) || e(a),
+            _ => false,
+        }
+    }
+    fn bl(b: &XB) -> bool {
+        b.stmts.iter().any(|s| match s {
+            XS::Let(x) | XS::LetTup(x) | XS::Show(x) => e(x),
+            XS::Clo(a, c) => e(a) || e(c),
+        }) || e(&b.tail)
+    }
+    bl(b)
 }
 
 fn unique_param(unique: &[String], prog: &Program) -> String {
